@@ -13,6 +13,7 @@ COQ = os.path.join(VERIF, 'coq')
 XLATE_DIR = os.path.join(VERIF, 'harness', 'xlate')
 CARGO_ENV = {'CARGO_NET_OFFLINE': 'true'}
 NSHARDS = 16
+CHUNK = 400      # scenarios per vm_compute term
 
 
 def log(*a):
@@ -527,18 +528,75 @@ def has_builder(xj, name):
     return False
 
 
+def cargo_errors(cmd, cwd, env, fname):
+    """run a cargo command with JSON messages -> (rc, {line of `fname`: [(code, message)]}, other messages, stderr tail)"""
+    with cargo_lock():
+        p = run(cmd + ['--message-format=json'], cwd=cwd, env=env, check=False, timeout=3000)
+    errs, other = {}, []
+    for line in p.stdout.splitlines():
+        if not line.startswith('{'):
+            continue
+        try:
+            m = json.loads(line)
+        except ValueError:
+            continue
+        if m.get('reason') != 'compiler-message' or m['message'].get('level') != 'error':
+            continue
+        msg = m['message']
+        if msg.get('message', '').startswith('aborting due to'):
+            continue
+        hit = False
+        for sp in msg.get('spans', []):
+            if not sp.get('is_primary'):
+                continue
+            cur = sp
+            while cur is not None:
+                if cur['file_name'].endswith(fname):
+                    errs.setdefault(cur['line_start'], []).append(((msg.get('code') or {}).get('code'), msg.get('message')))
+                    hit = True
+                    break
+                cur = (cur.get('expansion') or {}).get('span')
+        if not hit:
+            other.append(msg.get('message'))
+    return p.returncode, errs, other, p.stderr[-3000:]
+
+
 def build_runner(ws, todo, by_name, enums=(), builders=()):
-    """build src/bin/runner.rs for the declarations in `todo` in the dev and release profiles"""
+    """build src/bin/runner.rs for the declarations in `todo` in the dev and release profiles.
+    The runner uses every declaration through the API its declaration calls for; a declaration whose expansion no
+    longer offers that API makes its part of the runner fail to compile: it is dropped and reported.
+    -> {name: [rustc messages]} of the dropped declarations"""
     os.makedirs(ws.path('crate', 'src', 'bin'), exist_ok=True)
     from . import runner
-    open(ws.path('crate', 'src', 'bin', 'runner.rs'), 'w').write(runner.runner_source(todo, by_name, enums, builders))
     env = {'BITBYBIT_VERIF_DUMP_DIR': ws.path('dumps2'), 'CARGO_TARGET_DIR': ws.target}
     os.makedirs(ws.path('dumps2'), exist_ok=True)
+    dropped = {}
+    for attempt in range(8):
+        t2 = [d for d in todo if d['name'] not in dropped]
+        e2 = [d for d in enums if d['name'] not in dropped]
+        text = runner.runner_source(t2, by_name, e2, builders)
+        open(ws.path('crate', 'src', 'bin', 'runner.rs'), 'w').write(text)
+        rc, errs, other, stderr = cargo_errors(['cargo', 'build', '--offline', '--bin', 'runner'], ws.path('crate'), env, 'runner.rs')
+        if rc == 0:
+            break
+        spans = runner.owner_spans(text)
+        new = {}
+        src_lines = text.split('\n')
+        for ln, e in errs.items():
+            for nm, (a, b) in spans.items():
+                if a <= ln <= b:
+                    new.setdefault(nm, []).append({'line': src_lines[ln - 1].strip()[:300], 'rustc': e[:2]})
+        if not new:
+            raise RuntimeError('runner does not build and the errors cannot be attributed:\n%s\n%s' % (other[:3], stderr))
+        dropped.update(new)
+    else:
+        raise RuntimeError('runner does not build after dropping %d declarations' % len(dropped))
     with cargo_lock():
-        run(['cargo', 'build', '--offline', '--bin', 'runner'], cwd=ws.path('crate'), env=env, timeout=3000)
         run(['cargo', 'build', '--offline', '--release', '--bin', 'runner'], cwd=ws.path('crate'), env=env, timeout=3000)
+        run(['cargo', 'build', '--offline', '--bin', 'runner'], cwd=ws.path('crate'), env=env, timeout=3000)
         shutil.copy(os.path.join(ws.target, 'debug', 'runner'), ws.path('runner-dev'))
         shutil.copy(os.path.join(ws.target, 'release', 'runner'), ws.path('runner-release'))
+    return dropped
 
 
 def behaviour_compare(ws, todo, allcases, by_name, xl, subdir, max_mism=200):
@@ -604,10 +662,13 @@ def behaviour_compare(ws, todo, allcases, by_name, xl, subdir, max_mism=200):
             src.append('Definition d_%s : decl :=\n  %s.' % (d['name'], decls.coq_decl(d)))
             src.append('Definition p_%s : program :=\n  %s.' % (d['name'], coq_program(d['name'], xl[d['name']])))
             sc = allcases[d['name']]
-            src.append("Definition r_%s := Eval vm_compute in map (fun '(r0, ops) => run3 d_%s p_%s r0 ops) [\n  %s]." % (
-                d['name'], d['name'], d['name'],
-                ';\n  '.join('(%d, [%s])' % (r0, '; '.join(cases.coq_op(o) for o in ops)) for r0, ops in sc)))
-            src.append('Print r_%s.' % d['name'])
+            # a single huge term overflows coqc's stack: evaluate in chunks
+            for ci in range(0, max(len(sc), 1), CHUNK):
+                part = sc[ci:ci + CHUNK]
+                src.append("Definition r_%s__%d := Eval vm_compute in map (fun '(r0, ops) => run3 d_%s p_%s r0 ops) [\n  %s]." % (
+                    d['name'], ci // CHUNK, d['name'], d['name'],
+                    ';\n  '.join('(%d, [%s])' % (r0, '; '.join(cases.coq_op(o) for o in ops)) for r0, ops in part)))
+                src.append('Print r_%s__%d.' % (d['name'], ci // CHUNK))
         fn = os.path.join(cdir, 'behav_%d.v' % k)
         open(fn, 'w').write('\n'.join(src) + '\n')
         p = run(['coqc', '-noglob', '-Q', os.path.join(COQ, 'theories'), 'BB', fn], cwd=cdir, check=False, timeout=3000)
@@ -618,8 +679,11 @@ def behaviour_compare(ws, todo, allcases, by_name, xl, subdir, max_mism=200):
         for k, rc, out, err in ex.map(do_shard, range(len(shards))):
             if rc != 0:
                 raise RuntimeError('coqc failed on behaviour shard %d:\n%s' % (k, err[-3000:]))
-            for m in re.finditer(r'r_(\w+)\s*=\s*(\[.*?\])\s*:\s*list', out, re.S):
-                model[m.group(1)] = parse_coq_lists(m.group(2))
+            parts = {}
+            for m in re.finditer(r'r_(\w+?)__(\d+)\s*=\s*(\[.*?\])\s*:\s*list', out, re.S):
+                parts.setdefault(m.group(1), {})[int(m.group(2))] = parse_coq_lists(m.group(3))
+            for nm, pp in parts.items():
+                model[nm] = [x for ci in sorted(pp) for x in pp[ci]]
     mism = []
     n_ops = 0
     n_scen = 0
@@ -804,7 +868,7 @@ def enum_compare(ws, enums, xl, tier, seed):
     return {'enums': len(enums), 'conversions': nconv, 'stats': stats, 'mismatches': mism, 'n_mismatches': len(mism)}
 
 
-def stage_extra(ws, ds, verdicts, xl, dec):
+def stage_extra(ws, ds, verdicts, xl, dec, api_mismatch=()):
     """crates that must fail to compile (C14, C17), const-context evaluation (C15), no_std / docs / unsafe regimes (C18)"""
     if ws.done('extra'):
         return ws.load('extra')
@@ -813,7 +877,7 @@ def stage_extra(ws, ds, verdicts, xl, dec):
     t0 = time.time()
     P = _sys.modules[__name__]
     by_name = {d['name']: d for d in ds}
-    acc = set(n for n in verdicts['accepted'] if n in xl)
+    acc = set(n for n in verdicts['accepted'] if n in xl and n not in api_mismatch)
     offered = {n: v[2] for n, v in dec.items()}
     builders = set(d['name'] for d in ds if d['kind'] == 'bitfield' and d['name'] in acc and has_builder(xl[d['name']], d['name']))
     res = {'cfail': crates.compile_fail(P, ws, ds, acc, offered),
@@ -966,7 +1030,9 @@ def stage_behaviour(ws, ds, verdicts, xl):
     todo = [d for d in ds if d['kind'] == 'bitfield' and d['name'] in acc and d['name'] in xl and not d.get('unstructured')]
     enums = [d for d in ds if d['kind'] == 'enum' and d['name'] in acc and d['name'] in xl]
     builders = set(d['name'] for d in todo if has_builder(xl[d['name']], d['name']))
-    build_runner(ws, todo, by_name, enums, builders)
+    dropped = build_runner(ws, todo, by_name, enums, builders)
+    todo = [d for d in todo if d['name'] not in dropped]
+    enums = [d for d in enums if d['name'] not in dropped]
     t_build = time.time() - t0
     allcases = {}
     for d in todo:
@@ -975,6 +1041,7 @@ def stage_behaviour(ws, ds, verdicts, xl):
     res = behaviour_compare(ws, todo, allcases, by_name, xl, 'coqb')
     res['enum'] = enum_compare(ws, enums, xl, ws.tier, ws.seed)
     res['facts'] = facts_compare(ws, todo, by_name, ws.seed)
+    res['api_mismatch'] = dropped
     res['wall_s'] = time.time() - t0
     res['build_s'] = t_build
     ws.mark('behaviour', res)
